@@ -157,3 +157,6 @@ func (v *VerifRun) Grow(d int) bool {
 	v.b.SplitRecord(v.cur, pieces)
 	return true
 }
+
+// VerifWindow exposes the nack window a DLQ was constructed with.
+func (d *DLQ) VerifWindow() *VerifDLQWindow { return &VerifDLQWindow{w: d.window} }
